@@ -151,7 +151,9 @@ SigJudge(e) ==
                     /\ o.pk_edwards = Compress(DecompressPt(A))
                     /\ (short => /\ o.ph = pv /\ o.ph_raw = pv /\ o.ph_strict = ps /\ o.ph_ctx = pv
                                  /\ o.ph_none = VerifyAccepts(A, TRUE, <<>>, m, sg, LEGACY))
-                    /\ (~short => o.ctx_refused),
+                    \* a context longer than 255 bytes is malformed input: refused by with_context, and every
+                    \* prehashed verifier answers Err (never Ok, never a panic)
+                    /\ (~short => o.ctx_refused /\ o.ph_long = "err" /\ o.ph_long_strict = "err" /\ o.ph_long_raw = "err"),
                     <<v, s, pv, ps>>>>
   ELSE IF e.op = "sig.verify_batch" THEN
        LET ents == [i \in 1..Len(e.entries) |-> [A |-> e.entries[i][1], m |-> e.entries[i][2], sig |-> e.entries[i][3]]]
